@@ -735,3 +735,89 @@ def topology_mismatches(tree: Tree, module_prefixes: tuple[str, ...]) -> tuple[l
                         if o_id != t_id:
                             out.append({"fn": fn, "call": node, "arg": arg, "topology": node.args[0], "other": other, "via": sub})
     return out, n_calls
+
+
+# --------------------------------------------------------------------------- R-LITERALID / R-MEMO
+def literal_id_comparisons(tree: Tree, modules: tuple[str, ...]) -> tuple[list[dict], int]:
+    """Comparisons of a state / edge / node id with an integer literal.  Ids are labels: qrules
+    numbers the initial state -1 by default, but the library itself relabels topologies (0 for the
+    initial state in the DPD alignment) and users may permute them; the initial / final edges are
+    `topology.incoming_edge_ids` / `outgoing_edge_ids`."""
+    out = []
+    n = 0
+    idish = re.compile(r"(state|edge|node)_ids?\b|\b(state|edge|node)_id\b|_edge_ids\b|get_parent_id|get_sibling_state_id")
+    for q, fn in sorted(tree.funcs.items()):
+        if not q.startswith(modules) or fn.outer is not None:
+            continue
+        rd = RD(fn.node)
+        for node in walk_function(fn.node, nested=True):
+            if not (isinstance(node, ast.Compare) and len(node.ops) == 1 and isinstance(node.ops[0], (ast.Eq, ast.NotEq, ast.Is, ast.IsNot, ast.Lt, ast.Gt, ast.LtE, ast.GtE))):
+                continue
+            sides = [node.left, node.comparators[0]]
+            lit = [s for s in sides if (isinstance(s, ast.Constant) and isinstance(s.value, int) and not isinstance(s.value, bool))
+                   or (isinstance(s, ast.UnaryOp) and isinstance(s.op, ast.USub) and isinstance(s.operand, ast.Constant) and isinstance(s.operand.value, int))]
+            if len(lit) != 1:
+                continue
+            other = sides[0] if sides[1] is lit[0] else sides[1]
+            if isinstance(other, ast.Call) and unparse(other.func) == "len":
+                continue
+            n += 1
+            texts = [unparse(other)] + [unparse(d.value) for d in rd.closure(rd.uses(other)) if isinstance(d.value, ast.AST)]
+            loops = [unparse(d.node.iter) for d in rd.closure(rd.uses(other)) if d.kind == "for" and isinstance(d.node, ast.For)]
+            if any(idish.search(t) for t in texts + loops) and not any(t.startswith("len(") for t in texts[:1]):
+                out.append({"fn": fn, "node": node, "other": other, "literal": unparse(lit[0])})
+    return out, n
+
+
+def memo_invalidation(tree: Tree, cls_qual: str) -> list[dict]:
+    """Lazily computed attributes (`if self.A is None: self.A = f(self.B, ...)`) and the methods
+    that change an input B without resetting A."""
+    cls = tree.classes[cls_qual]
+    memos: dict[str, dict] = {}
+
+    def self_attr(n):
+        return n.attr if isinstance(n, ast.Attribute) and isinstance(n.value, ast.Name) and n.value.id == "self" else None
+
+    for m in cls.methods.values():
+        for node in walk_function(m.node):
+            if not isinstance(node, ast.If):
+                continue
+            t = node.test
+            a = None
+            if isinstance(t, ast.Compare) and len(t.ops) == 1 and isinstance(t.ops[0], ast.Is) and isinstance(t.comparators[0], ast.Constant) and t.comparators[0].value is None:
+                a = self_attr(t.left)
+            if a is None:
+                continue
+            stores = [s for s in ast.walk(node) if isinstance(s, ast.Assign) and any(self_attr(x) == a for x in s.targets)]
+            if not stores:
+                continue
+            deps = {self_attr(n) for b in node.body for n in ast.walk(b) if self_attr(n) and self_attr(n) != a and isinstance(n.ctx, ast.Load)}
+            memos[a] = {"method": m, "node": node, "deps": {d for d in deps if d}}
+    out = []
+    for a, info in memos.items():
+        for m in cls.methods.values():
+            if m is info["method"]:
+                continue
+            writes = set()
+            for node in walk_function(m.node):
+                tgt = None
+                if isinstance(node, (ast.Assign, ast.AugAssign, ast.AnnAssign)):
+                    for x in (node.targets if isinstance(node, ast.Assign) else [node.target]):
+                        base = x
+                        while isinstance(base, ast.Subscript):
+                            base = base.value
+                        if self_attr(base):
+                            writes.add(self_attr(base))
+                elif isinstance(node, ast.Call) and isinstance(node.func, ast.Attribute) and node.func.attr in {"add", "update", "append", "extend", "remove", "discard", "clear", "pop", "insert", "setdefault"}:
+                    if self_attr(node.func.value):
+                        writes.add(self_attr(node.func.value))
+            touched = writes & info["deps"]
+            if not touched or m.name == "__init__":
+                continue
+            resets = a in writes or any(
+                isinstance(c, ast.Call) and isinstance(c.func, ast.Attribute) and isinstance(c.func.value, ast.Name) and c.func.value.id == "self"
+                and c.func.attr in cls.methods and any(
+                    isinstance(s, ast.Assign) and any(self_attr(x) == a for x in s.targets) for s in ast.walk(cls.methods[c.func.attr].node))
+                for c in walk_function(m.node))
+            out.append({"memo": a, "writer": m, "touched": sorted(touched), "resets": resets, "computed_in": info["method"]})
+    return out
